@@ -5,18 +5,25 @@ import (
 	"fmt"
 	"os"
 
+	"verif/internal/c01"
 	"verif/internal/c15"
 	"verif/internal/c16"
 	"verif/internal/c17"
+	"verif/internal/scen"
 )
 
 var checks = map[string]func(tier, replay string){
+	"C01": c01.Main,
 	"C15": c15.Main,
 	"C16": c16.Main,
 	"C17": c17.Main,
 }
 
 func main() {
+	if len(os.Args) == 4 && os.Args[1] == "worker" {
+		scen.WorkerMain(os.Args[2], os.Args[3])
+		return
+	}
 	if len(os.Args) < 3 {
 		fmt.Println("usage: vcheck <Cxx> <quick|thorough|replay> [path]")
 		os.Exit(2)
